@@ -88,14 +88,14 @@ def main(tier):
     if tier == "quick":  # reports compared for every rejected call within budget 1; budget 2 with the white-box snapshot (reports are a function of it)
         st = e2.explore(run, list(e2.SEEDS), 2, 1, trans_check=trans_check, phase_ops=True)
         _DEEP["on"] = False
-        stb = e2.explore(run, list(e2.SEEDS), 2, 2, trans_check=trans_check, phase_ops=True)
+        stb = e2.explore(run, list(e2.SEEDS), 2, 2, trans_check=trans_check, phase_ops=True, odd=True)
         _DEEP["on"] = True
         for k in list(stb):
             if k != "per_depth":
                 st[k] = max(st[k], stb[k]) if k in ("states",) else st[k] + stb[k]
         st["per_depth_b2_snapshot_only"] = stb["per_depth"]
     else:
-        st = e2.explore(run, list(e2.SEEDS), D, B, trans_check=trans_check, phase_ops=True)
+        st = e2.explore(run, list(e2.SEEDS), D, B, trans_check=trans_check, phase_ops=True, odd=True)
     # warnings promoted to errors: a call that warns is then a rejected call and must be atomic as well
     stw = e2.explore(run, list(e2.SEEDS), 2 if tier == "quick" else 3, 2, trans_check=trans_check_werror, phase_ops=True, werror=True)
     st["warnings_as_errors"] = {"states": stw["states"], "transitions": stw["transitions"], "rejected": stw["rejected"],
